@@ -212,6 +212,8 @@ def verify_terms(spec, obs, vi):
             coq_list([sc(x) for x in obs_dyn]),
         ]) + ")")
         info["chunks"] += 1
+        # the masks of a chunk that passed are not observable when a LATER chunk fails (verify_batch then returns only the error)
+        info.setdefault("masks_known", []).append(not (chunk_ok and masks is None))
         info.setdefault("zero", []).append(zero)
         info.setdefault("has_msm", []).append(call is not None)
     info["chunks_expected"] = nchunks
